@@ -82,6 +82,9 @@ def _request_bytes(r):
     if kind == "expect":
         # (the expectation is a case-insensitive token: r["expect_value"] spells it differently)
         return ("POST %s HTTP/1.1\r\nHost: t\r\nX-K: %d\r\nExpect: %s\r\nContent-Length: %d\r\n%s\r\n" % (path, k, r.get("expect_value", "100-continue"), len(body), extra)).encode(), body
+    if kind == "expect_chunked":
+        cb = b"%x\r\n%s\r\n0\r\n\r\n" % (len(body), body)
+        return ("POST %s HTTP/1.1\r\nHost: t\r\nX-K: %d\r\nExpect: 100-continue\r\nTransfer-Encoding: chunked\r\n%s\r\n" % (path, k, extra)).encode(), cb
     if kind == "expect_nobody":
         return ("GET %s HTTP/1.1\r\nHost: t\r\nX-K: %d\r\nExpect: 100-continue\r\n%s\r\n" % (path, k, extra)).encode(), b""
     if kind == "expect10":
@@ -109,7 +112,7 @@ def _request_bytes(r):
 
 METHOD = {"plain": "GET", "head": "HEAD", "body": "POST", "chunked": "POST", "expect": "POST",
           "expect_nobody": "GET", "expect10": "POST", "close": "GET", "http10": "GET", "http10_ka": "GET",
-          "bad": "GET", "toolarge": "POST", "garbage": "GET", "partial": "GET", "te10": "GET", "te_cl": "POST", "te_cl_empty": "POST"}
+          "bad": "GET", "toolarge": "POST", "garbage": "GET", "partial": "GET", "te10": "GET", "te_cl": "POST", "te_cl_empty": "POST", "expect_chunked": "POST"}
 
 
 class AppIter:
